@@ -165,7 +165,7 @@ theorem gcdExtBinarImp_spec (a b c d e : Int) (h : gcdExtBinarImp a b = some (c,
         rw [m2]; intro h0; exact hyn (Nat.eq_zero_of_gcd_eq_zero_right h0)
       simp only [hg0, if_false] at h
       cases hfix : extBinarFix ((xn : Int) / (g : Int)) ((yn : Int) / (g : Int)) (hlv ((xn : Int) / (g : Int)))
-          (hlv ((yn : Int) / (g : Int))) (fixFuel a b) C D with
+          (hlv ((yn : Int) / (g : Int))) (C.natAbs + 2) C D with
       | none => rw [hfix] at h; simp at h
       | some r =>
         obtain ⟨C', D'⟩ := r
